@@ -245,11 +245,13 @@ def check_twogrid_spd(ctx, rec, k):
 # =====================================================================================================
 # hierarchical spaces: numeric predicates on spec-generated refinement histories
 
+from .. import hs_util
+
 STRATEGIES = ('new', 'trunc', 'func_supp', 'cell_supp')
 SMOOTHERS = ('gs', 'forward_gs', 'backward_gs', 'symmetric_gs', 'exact')
 
 
-def build_hspace(hist, p, n0, dim, truncate, disparity, bdspecs, hist2=None):
+def build_hspace(hist, p, n0, dim, truncate, disparity, bdspecs, hist2=None, probes=False):
     from pyiga import bspline, hierarchical
     kv = bspline.make_knots(p, 0.0, 1.0, n0)
     hs = hierarchical.HSpace(dim * (kv,), truncate=truncate, disparity=disparity, bdspecs=bdspecs)
@@ -265,6 +267,8 @@ def build_hspace(hist, p, n0, dim, truncate, disparity, bdspecs, hist2=None):
             cells = {(a, b) for a in st['cells'] for b in other}
         cells &= set(hs.active_cells(lv))
         if cells:
+            if probes:      # the adaptive loop: solve (queries populate every cached table), mark, refine
+                hs_util.probe(hs)
             hs.refine({lv: cells})
             applied.append((lv, sorted(cells)))
     return hs, applied
@@ -275,8 +279,7 @@ def on_boundary(hs, lv, mi, bdspecs):
     return any(mi[ax] == (0 if side == 0 else nd[ax] - 1) for ax, side in (bdspecs or []))
 
 
-def check_hspace(ctx, hs, name, bd, thorough):
-    from pyiga import assemble, solvers
+def check_sets(ctx, hs, name, bd):
     L = hs.numlevels
     sigbase = 'hspace=%s' % name
     # ---- smoothing sets (property level: contains the new dofs of the level, no Dirichlet dof)
@@ -287,7 +290,7 @@ def check_hspace(ctx, hs, name, bd, thorough):
     except Exception as ex:
         ctx.violation('exception %s indices_to_smooth bdspecs=%s' % (type(ex).__name__, 'None' if bd is None else 'list'),
                       {'case': sigbase, 'error': repr(ex)})
-        return
+        return None
     for lv in range(L):
         order = [(l, mi) for l in range(L) for mi in glob[lv][l]]
         mydir = {i for i, (l, mi) in enumerate(order) if on_boundary(hs, l, mi, bd)}
@@ -305,7 +308,15 @@ def check_hspace(ctx, hs, name, bd, thorough):
             elif set(S) & mydir:
                 ctx.violation('smoothing-set-contains-dirichlet-dof strategy=%s' % s,
                               {'case': sigbase, 'level': lv, 'dofs': sorted(set(S) & mydir)})
-    if L < 2:
+    return inds
+
+
+def check_hspace(ctx, hs, name, bd, thorough):
+    from pyiga import assemble, solvers
+    L = hs.numlevels
+    sigbase = 'hspace=%s' % name
+    inds = check_sets(ctx, hs, name, bd)
+    if inds is None or L < 2:
         return
     # ---- Galerkin system on the hierarchical space (finest-level tensor-product operator, no form compilation)
     kvs = hs.knotvectors(L - 1)
@@ -409,6 +420,21 @@ def run_hier(ctx, hists):
             ctx.skip('could not build %s: %r (refinement itself is property C04)' % (name, ex))
             continue
         check_hspace(ctx, hs, name, bd, thorough)
+    # the adaptive loop on every multi-step history: read-only queries between the refine() calls
+    multi = [h for h in hists if len(h) >= 2]
+    if not thorough:
+        multi = multi[::max(1, len(multi) // 150)]
+    for j, h in enumerate(multi):
+        for p in (1, 2):
+            bd = bd1[j % 2]
+            name = 'probed dim=1 p=%d n0=%d hist=%s bd=%s' % (p, n0, json.dumps([(s['lv'], s['cells']) for s in h], separators=(',', ':')), bd)
+            try:
+                hs, applied = build_hspace(h, p, n0, 1, bool(j % 3 == 0), np.inf, bd, probes=True)
+            except Exception as ex:
+                ctx.violation('exception %s refine-after-queries' % type(ex).__name__, {'case': name, 'error': repr(ex)})
+                continue
+            if len(applied) >= 2:
+                check_sets(ctx, hs, name, bd)
     # bdspecs=None (the constructor default): the smoothing sets must still be computable (no Dirichlet dofs)
     hs, _ = build_hspace(hists[len(hists) // 2], 2, n0, 1, False, np.inf, None)
     try:
